@@ -53,6 +53,12 @@ def handle (args : List String) : Verdict :=
       { agree := g, propOk := ok, msg := if ok then "" else s!"element {sym}: number {n}, charge {c}, mass {mass} inconsistent with the reference table",
         tag := "element" }
     | _, _, _, _ => bad "elem fields"
+  | ["massback", hs, hb, assoc] =>
+    let sym := str (unhex hs)
+    let back := str (unhex hb)
+    let ok := sym == back && assoc == "1"
+    { agree := ok, propOk := ok, tag := "mass-lookup",
+      msg := s!"ELEMENT-MASS-LOOKUP the element closest in mass to the mass of {sym} is reported as '{back}' (associated={assoc})" }
   | ["covrad", hs, am, ae, nmm, nme, bm, be] =>
     match unhex hs, parseRat2 am ae, parseRat2 nmm nme, parseRat2 bm be with
     | some s, some a, some n, some b =>
